@@ -8,7 +8,7 @@ NOT_APPLICABLE = props.NOT_APPLICABLE
 
 m = dict(
     version=1,
-    setup_cmd="cargo build --offline --release --manifest-path tools/extract/Cargo.toml",
+    setup_cmd="cargo build --offline --release --manifest-path tools/extract/Cargo.toml && python3 tools/prebuild.py",
     hooks=dict(
         guard="cfg(kani)",
         enable="no hook lives in /repo: contracts and harness modules are spliced onto a scratch copy of /repo's working tree on every run (cargo kani sets cfg(kani); verus reads functions extracted by tools/extract)",
@@ -21,6 +21,8 @@ m = dict(
              kind_free_text="deductive verification (Verus/Z3) of functions extracted mechanically from /repo on every run, contracts spliced from units/*/unit.py"),
         dict(name="kani-append", path="vlib/kani.py", serves_properties=sorted(p for p, v in props.PROPS.items() if any(k == "kani" for k, _ in v["units"])),
              kind_free_text="Kani/CBMC harness-contracts appended to a scratch copy of the real crate; loop-free full-domain harnesses are complete, others labelled bounded"),
+        dict(name="standin", path="vlib/standin.py", serves_properties=sorted(props.PROPS),
+             kind_free_text="bounded stand-ins: executable forms of the top-level postconditions run against the interpreter binary built from the tree under check (standins/<ID>.py); labelled bounded, never counted as discharged; they supply the failing input a failed Verus obligation lacks and stand in where a changed function is outside the verifier's reach"),
     ],
     checks=[],
     notes="exit 2 = undecided (tool limit, lost anchor, rewrite mismatch, timeout); never printed as VIOLATION. See DESIGN.md.",
@@ -34,10 +36,11 @@ for pid in sorted(props.PROPS):
         thorough_cmd="./check %s --tier thorough" % pid,
         evidence_file="/verif/evidence/%s.json" % pid,
         replay_cmd_template="./check %s --replay {path}" % pid,
-        engine="+".join(sorted(set("verus-splice" if k == "verus" else "kani-append" for k, _ in P["units"]))),
+        engine="+".join(sorted(set("verus-splice" if k == "verus" else "kani-append" for k, _ in P["units"])) + ["standin"]),
         level_claimed=dict(category="proof", text=P.get("level_text", P.get("explanation", "")), design_ref="DESIGN.md §5/%s" % pid),
-        level_note="Not covered: " + "; ".join(P.get("not_covered", [])) + ". Assumed: " + "; ".join(P.get("assumptions", [])),
-        technique=P.get("technique", "contract-based deductive verification: Verus on mechanically extracted real functions + Kani harness contracts on the real crate"),
+        level_note="Not covered by a contract: " + "; ".join(P.get("not_covered", [])) + ". Assumed: " + "; ".join(P.get("assumptions", [])) +
+                   ". Bounded stand-in (standins/%s.py, reported under bounded_checks): the property's own postcondition on the real binary over a finite generated input set; a failing input is replayed on the real code before any VIOLATION line." % pid,
+        technique=P.get("technique", "contract-based deductive verification: Verus on mechanically extracted real functions + Kani harness contracts on the real crate; bounded stand-in (labelled bounded, not counted as proved): the property's postcondition executed on the real binary over a stated finite input set"),
     ))
 with open(os.path.join(os.path.dirname(os.path.dirname(os.path.abspath(__file__))), "MANIFEST.json"), "w") as f:
     json.dump(m, f, indent=1)
